@@ -254,7 +254,11 @@ func (h *harness1) newGen() *gen1 {
 				return
 			}
 			rh := refe4.Header{Device: sc.Device, R: !m.H.R, Stream: m.H.Stream, Func: m.H.Func + 1, Num: 1, E: true, Sys: m.H.Sys}
-			h.peerSend(g, refe4.Wire(rh, m.Body))
+			body := m.Body
+			if len(body) > 200 {
+				body = refhsms.ASCII("re") // one block carries at most 244 body bytes
+			}
+			h.peerSend(g, refe4.Wire(rh, body))
 		}
 		switch sc.PeerMix[int(m.H.Sys)%len(sc.PeerMix)] {
 		case pReply:
@@ -460,7 +464,14 @@ func (h *harness1) sender(si int) {
 				for k := 0; k < h.sc.Unsolicited; k++ {
 					h.inSeq++
 					hd := refe4.Header{Device: h.sc.Device, R: !h.sc.Equip, Stream: 6, Func: 11, Num: 1, E: true, Sys: 0x50000000 + h.inSeq}
-					h.peerSend(g, refe4.Wire(hd, refhsms.ASCII("evt")))
+					raw := refe4.Wire(hd, refhsms.ASCII("evt"))
+					h.peerSend(g, raw)
+					if w.T.Choose("peer", 3) == 0 {
+						// the identical block again, as if the library's ACK had been lost: an E4 duplicate —
+						// acknowledged, discarded, and NOT a second received message
+						g.p.SendBlock(raw, nil, nil, nil)
+						w.Probe("duplicate_block_retransmitted")
+					}
 				}
 			}
 		}
